@@ -200,8 +200,11 @@ def check_frame(root, spec, kind, i, variant, base=None):
 
 def reported(stdout, stderr, name):
     """Is the source named (as a whole word) in a line that is not its success line?"""
-    pat = re.compile(r'(?<![A-Za-z0-9_])' + re.escape(name) + r'(?![A-Za-z0-9_])', re.I if name == B.SUPP_NAME else 0)
-    for line in (stdout + '\n' + stderr).splitlines():
+    pat = re.compile(r'(?<![A-Za-z0-9_])' + re.escape(name) + r'(?![A-Za-z0-9_])')
+    # the loading phase of the output (before "Total: n transactions"; the summary below it prints merchant names,
+    # which may contain any word) and everything on stderr
+    head = re.split(r'^Total: \d+ transactions\s*$', stdout, maxsplit=1, flags=re.M)[0]
+    for line in (head + '\n' + stderr).splitlines():
         if pat.search(line):
             if re.match(r'^\s*' + re.escape(name) + r': \d+ transactions\s*$', line):
                 continue
@@ -239,7 +242,17 @@ def check_missing(root, spec, name, st):
             fails.append({'law': 'missing/supplemental-not-reported', 'strong': changed,
                           'detail': f'supplemental source {name} is {st}; nothing in the output names it'
                                     + ('; the classification of other sources\' transactions silently changes' if changed else '')})
-        return fails, rv, None
+        zero = copy.deepcopy(spec)
+        del zero['sources'][i]
+        r0 = B.up_html(B.materialize(zero, root + '_z'), os.path.join(root + '_z', 'out.html'))
+        if r0['rc'] == 0 and r0['data'] is not None:
+            if rv['rc'] != 0 or rv['data'] is None:
+                fails.append({'law': 'missing/exit', 'detail': f"supplemental source {name} is {st}: exit {rv['rc']}: {rv['stderr'][-200:]}"})
+            else:
+                df = first_diff(canon(rv['data']), canon(r0['data']))
+                if df:
+                    fails.append({'law': 'missing/others-intact', 'detail': f'{st} supplemental source {name}: figures differ from the budget without it: ' + df})
+        return fails, rv, r0
     zero = copy.deepcopy(spec)
     del zero['sources'][i]
     if not zero['sources']:
@@ -264,7 +277,7 @@ def check_missing(root, spec, name, st):
 
 def signature(f, spec=None):
     if f['law'] == 'missing/supplemental-not-reported':
-        return 'C11/missing-supplemental-source-not-reported'
+        return 'C11/missing-supplemental-source-not-reported'    # status "fixed" in known_findings.d: a regression is a VIOLATION
     return None
 
 
@@ -335,8 +348,8 @@ def eval_budget(job):
             res['missing'] = {'i': i, 'state': st, 'rc': rv['rc'], 'supp': spec['sources'][i]['supplemental'],
                               'reported': reported(rv['stdout'], rv['stderr'], spec['sources'][i]['name']),
                               'seqs': B.html_merchant_seqs(rv['data']),
-                              'names_reported': [s['name'] for s in spec['sources'] if not s['supplemental'] and
-                                                 reported(rv['stdout'], rv['stderr'], s['name'])]}
+                              'names_reported': [s['name'] for sup in (True, False) for s in spec['sources']
+                                                 if s['supplemental'] == sup and reported(rv['stdout'], rv['stderr'], s['name'])]}
             for f in fails:
                 res['fails'].append(dict(f, check={'type': 'missing', 'name': spec['sources'][i]['name'], 'state': st}))
     except Exception as e:  # noqa
@@ -350,19 +363,20 @@ From Tally Require Import Lib.Str C11.Model.
 Import ListNotations.
 Open Scope list_scope.
 Definition Row := (nat * nat)%type.                       (* position in the source's parse, merchant id *)
-Definition parse (st : unit) (c : option (list Row)) : option (list Row) := c.   (* the stage result observed on the implementation *)
-Definition lsupp (st : unit) (c : option (list Row)) : option (list nat) := Some [].
+Definition parse (st : unit) (c : option (list Row) * option (list nat)) : option (list Row) := fst c.   (* the stage result observed on the implementation *)
+Definition Cont := (option (list Row) * option (list nat))%type.   (* result as a transaction source, rows loaded as supplemental data *)
+Definition lsupp (st : unit) (c : Cont) : option (list nat) := snd c.
 Definition cl (R : unit) (m : mode) (sd : supp_data nat) (n : string) (r : Row) : string * nat * nat := (n, fst r, snd r).
-Definition run (ss : list (source unit (option (list Row)))) :=
+Definition run (ss : list (source unit (option (list Row) * option (list nat)))) :=
   run_up parse lsupp cl (fun l => l) (fun (v : unit) st => tt) (mkBudget ss tt FirstMatch None).
-Definition S (n : string) (sp : bool) (st : state) (c : option (list Row)) := mkSource n sp true tt st c.
+Definition S (n : string) (sp : bool) (st : state) (c : option (list Row)) (sr : option (list nat)) := mkSource n sp true tt st (c, sr).
 Definition key_eqb (a b : string * nat) := (String.eqb (fst a) (fst b) && Nat.eqb (snd a) (snd b))%bool.
 Fixpoint leqb {A} (e : A -> A -> bool) (a b : list A) : bool :=
   match a, b with [], [] => true | x :: r, y :: s => (e x y && leqb e r s)%bool | _, _ => false end.
-Definition wname (w : warning) := match w with FileNotFound n => n | UnknownParser n => n | ParseError n => n end.
+Definition wname (w : warning) := match w with FileNotFound n => n | UnknownParser n => n | ParseError n => n | SuppNotLoaded n => n end.
 (* case: sources, expected status (0 report / 1 no transactions / 2 no sources),
    per merchant id the ordered (source, position) list seen in the report, optional list of reported names *)
-Definition ok (c : list (source unit (option (list Row))) * nat * list (nat * list (string * nat)) * option (list string)) : bool :=
+Definition ok (c : list (source unit (option (list Row) * option (list nat))) * nat * list (nat * list (string * nat)) * option (list string)) : bool :=
   let '(ss, status, seqs, ws) := c in
   match run ss with
   | Report t _ _ w =>
@@ -396,7 +410,8 @@ def coq_case(spec, per_source, seqs, rc, names_reported=None, state_override=Non
             content = 'Some [' + '; '.join(items) + ']'
         elif ps.get('skipped') == 'error' and st == 'present':
             content = 'None'
-        srcs.append(f"S {coq_str('s%d' % i)} {'true' if s['supplemental'] else 'false'} {cst} ({content})")
+        sr = 'Some [' + '; '.join('1' for r in s['rows'] if not r['bad']) + ']' if s['supplemental'] else 'None'
+        srcs.append(f"S {coq_str('s%d' % i)} {'true' if s['supplemental'] else 'false'} {cst} ({content}) ({sr})")
     idx = {s['name']: i for i, s in enumerate(spec['sources'])}
     used = set()
     seq_items = []
@@ -480,7 +495,7 @@ def main(tier):
             present = [i for i, s in enumerate(spec['sources']) if s['state'] == 'present']
             supp = [i for i in present if spec['sources'][i]['supplemental']]
             if supp and k % 2 == 0:
-                miss = (supp[0], 'missing')
+                miss = (supp[0], rnd.choice([x for x in B.BAD_STATES if x != 'badutf8']))   # the loader decodes with errors='replace'
             elif present:
                 nons = [i for i in present if not spec['sources'][i]['supplemental']]
                 if nons:
@@ -527,7 +542,7 @@ def main(tier):
             else:
                 rows.append((c, r['k'], 'base'))
             ms = r.get('missing')
-            if ms and not ms['supp'] and ms['rc'] in (0, 1):
+            if ms and ms['rc'] in (0, 1):
                 c = coq_case(spec, r['direct']['per_source'], ms['seqs'], ms['rc'], names_reported=ms['names_reported'],
                              state_override=(ms['i'], ms['state']))
                 if c is None:
